@@ -16,6 +16,14 @@ Definition derr_eqb (a b : derr) : bool :=
 (* exact_faster = tol < 1 / sqrt(10 * prod(shape)), in exact arithmetic for tol = tp/tq > 0:  10*m*n*tp^2 < tq^2 *)
 Definition auto_exact (tp tq : Z) (m n : nat) : bool := (tp * tp * 10 * Z.of_nat m * Z.of_nat n <? tq * tq)%Z.
 Definition default_auto : alg := AAuto 1 1000000.
+(* behaviours of the pinned tree that contradict the property (false = as pinned, true = repaired) *)
+Record dflags := mkdflags {
+  d_ragged_fixed : bool;   (* exact_diag_ragged_chunk: the shifted chunk follows the width of a ragged last block *)
+  d_kron_refuse : bool;    (* kron_diag_nonsquare_factors: diag(Kronecker) asserts square factors *)
+  d_bd_refuse : bool       (* blockdiag_diag_nonsquare_blocks: diag(BlockDiag) asserts square blocks *)
+}.
+Definition dpinned : dflags := mkdflags false false false.
+Definition drepaired : dflags := mkdflags true true true.
 
 Section Rules.
 Context {R : Type} {RR : Ring R} {CR : CRing R}.
@@ -39,17 +47,18 @@ Definition outer (f : R -> R -> R) (unit : R) (ds : list (list R)) : list R :=
   fold_right (fun d acc => flat_map (fun x => map (fun y => f x y) acc) d) [unit] ds.
 Definition lsum (l : list R) : R := fold_left radd l r0.
 
-Definition generic_diag (B : nat) (al : alg) (e : op) (k : Z) : derr + list R :=
+Definition sqb (e : op) : bool := Nat.eqb (fst (shape e)) (snd (shape e)).
+Definition generic_diag (df : dflags) (B : nat) (al : alg) (e : op) (k : Z) : derr + list R :=
   let m := fst (shape e) in let n := snd (shape e) in
   let run := if Nat.eqb m n then
-               match exact_diag B m (fun _ X => matmat e X) k with Some d => inr d | None => inl DValue end
+               match exact_diag (d_ragged_fixed df) B m (fun _ X => matmat e X) k with Some d => inr d | None => inl DValue end
              else inl DUnmodelled in
   match al with
   | AExact => run
   | AAuto tp tq => if auto_exact tp tq m n then run else inl DStoch
   end.
 
-Fixpoint diag_rule (B : nat) (al : alg) (e : op) (k : Z) {struct e} : derr + list R :=
+Fixpoint diag_rule (df : dflags) (B : nat) (al : alg) (e : op) (k : Z) {struct e} : derr + list R :=
   match e with
   | Dense a => inr (true_diag (nr a) (nc a) (dat a) k)                      (* xnp.diag(A.A, diagonal=k) *)
   | Ident n => if (k =? 0)%Z then inr (rep n r1) else zeros_k n k
@@ -60,7 +69,7 @@ Fixpoint diag_rule (B : nat) (al : alg) (e : op) (k : Z) {struct e} : derr + lis
       (fix go (l : list op) (acc : option (list R)) {struct l} : derr + list R :=
          match l with
          | [] => match acc with Some a => inr a | None => inr [] end
-         | m :: l' => match diag_rule B al m k with
+         | m :: l' => match diag_rule df B al m k with
                       | inl er => inl er
                       | inr d => match acc with
                                  | None => go l' (Some d)                    (* 0 + d *)
@@ -70,10 +79,11 @@ Fixpoint diag_rule (B : nat) (al : alg) (e : op) (k : Z) {struct e} : derr + lis
          end) ms None
   | BDiag ms =>
       if (k =? 0)%Z then
+        if d_bd_refuse df && negb (forallb (fun mc => sqb (fst mc)) ms) then inl DAssert else
         (fix go (l : list (op * nat)) {struct l} : derr + list R :=
            match l with
            | [] => inr []
-           | (m, mu) :: l' => match diag_rule B al m k with
+           | (m, mu) :: l' => match diag_rule df B al m k with
                               | inl er => inl er
                               | inr d => match go l' with inl er => inl er | inr rest => inr (concat (rep mu d) ++ rest) end
                               end
@@ -81,10 +91,11 @@ Fixpoint diag_rule (B : nat) (al : alg) (e : op) (k : Z) {struct e} : derr + lis
       else inl DAssert
   | Kron ms =>
       if (k =? 0)%Z then
+        if d_kron_refuse df && negb (forallb sqb ms) then inl DAssert else
         match (fix go (l : list op) {struct l} : derr + list (list R) :=
                  match l with
                  | [] => inr []
-                 | m :: l' => match diag_rule B al m k with
+                 | m :: l' => match diag_rule df B al m k with
                               | inl er => inl er
                               | inr d => match go l' with inl er => inl er | inr ds => inr (d :: ds) end
                               end
@@ -98,7 +109,7 @@ Fixpoint diag_rule (B : nat) (al : alg) (e : op) (k : Z) {struct e} : derr + lis
         match (fix go (l : list op) {struct l} : derr + list (list R) :=
                  match l with
                  | [] => inr []
-                 | m :: l' => match diag_rule B al m k with
+                 | m :: l' => match diag_rule df B al m k with
                               | inl er => inl er
                               | inr d => match go l' with inl er => inl er | inr ds => inr (d :: ds) end
                               end
@@ -107,15 +118,15 @@ Fixpoint diag_rule (B : nat) (al : alg) (e : op) (k : Z) {struct e} : derr + lis
         | inr ds => inr (outer radd r0 ds)
         end
       else inl DAssert
-  | _ => generic_diag B al e k
+  | _ => generic_diag df B al e k
   end.
 
 (* trace(A, alg) *)
-Definition generic_trace (B : nat) (al : alg) (e : op) : derr + R :=
+Definition generic_trace (df : dflags) (B : nat) (al : alg) (e : op) : derr + R :=
   if Nat.eqb (fst (shape e)) (snd (shape e)) then                         (* assert A.shape[0] == A.shape[1] *)
-    match diag_rule B al e 0 with inl er => inl er | inr d => inr (lsum d) end
+    match diag_rule df B al e 0 with inl er => inl er | inr d => inr (lsum d) end
   else inl DAssert.
-Definition trace_rule (B : nat) (al : alg) (e : op) : derr + R :=
+Definition trace_rule (df : dflags) (B : nat) (al : alg) (e : op) : derr + R :=
   (fix tr (e : op) {struct e} : derr + R :=
      match e with
      | Kron ms =>                                                          (* product([trace(M, alg) for M in A.Ms]) *)
@@ -127,7 +138,7 @@ Definition trace_rule (B : nat) (al : alg) (e : op) : derr + R :=
                          | inr t => match go l' with inl er => inl er | inr p => inr (t * p) end
                          end
             end) ms
-     | _ => generic_trace B al e
+     | _ => generic_trace df B al e
      end) e.
 
 Definition true_trace (n : nat) (M : fm) : R := sum n (fun i => M i i).
